@@ -1949,6 +1949,133 @@ fn judge_e2e_stdout(stdout: &str, slots: &[Slot], source: &str) -> (Vec<Fail>, (
     (fails, counts)
 }
 
+
+// ------------------------------------------------------------------------------------------------ cycle shapes
+
+/// A dependency cycle of 1..=4 consts whose links are chosen independently (bare alias, unary/binary expression,
+/// string concat, collection literal, mixed), plus 0..=3 "tail" consts leading into it from outside, in a chosen
+/// declaration order, annotated or not.
+#[derive(Clone, Debug)]
+struct CycRecipe {
+    len: usize,
+    strs: bool,
+    links: Vec<u8>,
+    tails: Vec<(u8, u16)>,
+    order: u8,
+    anns: u16,
+}
+
+fn cyc_strategy() -> impl Strategy<Value = CycRecipe> {
+    (1usize..=4, any::<bool>(), proptest::collection::vec(any::<u8>(), 4), proptest::collection::vec(any::<(u8, u16)>(), 0..=3), any::<u8>(), any::<u16>())
+        .prop_map(|(len, strs, links, tails, order, anns)| CycRecipe { len, strs, links, tails, order, anns })
+}
+
+/// initializer of a const that references `n`; returns (text, annotation or "")
+fn link_text(kind: u8, n: &str, strs: bool) -> (String, &'static str) {
+    if strs {
+        match kind % 10 {
+            0 | 1 | 2 | 3 => (n.to_string(), "str"),
+            4 => (format!("{n} + \"a\""), "str"),
+            5 => (format!("\"a\" + {n}"), "str"),
+            6 => (format!("{n} + \"a\" + {n}"), "str"),
+            7 => (format!("[{n}, \"x\"]"), ""),
+            8 => (format!("({n}, \"x\")"), ""),
+            _ => (format!("{n} == \"a\""), "bool"),
+        }
+    } else {
+        match kind % 12 {
+            0 | 1 | 2 | 3 => (n.to_string(), "int"),
+            4 => (format!("-{n}"), "int"),
+            5 => (format!("{n} + 1"), "int"),
+            6 => (format!("2 * {n}"), "int"),
+            7 => (format!("1 + {n} * 2 - 3"), "int"),
+            8 => (format!("[{n}, 1]"), ""),
+            9 => (format!("({n}, 1)"), ""),
+            10 => (format!("{{1: {n}}}"), ""),
+            _ => (format!("{n} < 3 and True"), "bool"),
+        }
+    }
+}
+
+/// (source, cycle member names, number of tails, number of bare-alias links)
+fn cyc_source(r: &CycRecipe) -> (String, Vec<String>, usize, usize) {
+    let members: Vec<String> = (0..r.len).map(|i| format!("C{i}")).collect();
+    let mut aliases = 0;
+    let mut decl = |name: &str, kind: u8, target: &str, idx: usize| {
+        let (text, ann) = link_text(kind, target, r.strs);
+        if text == target {
+            aliases += 1;
+        }
+        if !ann.is_empty() && (r.anns >> idx) & 1 == 1 {
+            format!("const {name}: {ann} = {text}")
+        } else {
+            format!("const {name} = {text}")
+        }
+    };
+    let cyc: Vec<String> = (0..r.len).map(|i| decl(&members[i], r.links[i], &members[(i + 1) % r.len], i)).collect();
+    let mut tail_names: Vec<String> = Vec::new();
+    let mut tails: Vec<String> = Vec::new();
+    for (t, (kind, target)) in r.tails.iter().enumerate() {
+        // a tail references a cycle member or an earlier tail (so tails can chain into the cycle)
+        let pool: Vec<&String> = members.iter().chain(tail_names.iter()).collect();
+        let tgt = pool[gen::idx(*target, pool.len())].clone();
+        let name = format!("T{t}");
+        tails.push(decl(&name, *kind, &tgt, 4 + t));
+        tail_names.push(name);
+    }
+    let n_tails = tails.len();
+    let mut lines: Vec<String> = match r.order % 6 {
+        0 => tails.iter().rev().chain(cyc.iter()).cloned().collect(),
+        1 => cyc.iter().chain(tails.iter()).cloned().collect(),
+        2 => tails.iter().chain(cyc.iter()).cloned().collect(),
+        3 => {
+            let mut v = Vec::new();
+            let (mut a, mut b) = (tails.iter(), cyc.iter());
+            loop {
+                match (a.next(), b.next()) {
+                    (None, None) => break,
+                    (x, y) => {
+                        v.extend(x.cloned());
+                        v.extend(y.cloned());
+                    }
+                }
+            }
+            v
+        }
+        4 => cyc.iter().rev().chain(tails.iter().rev()).cloned().collect(),
+        _ => {
+            let mut v: Vec<String> = cyc.iter().chain(tails.iter()).cloned().collect();
+            let k = (r.order as usize / 6) % v.len().max(1);
+            v.rotate_left(k);
+            v
+        }
+    };
+    lines.push(String::new());
+    (lines.join("\n"), members, n_tails, aliases)
+}
+
+enum Watched<T> {
+    Done(T),
+    TimedOut,
+    Died,
+}
+
+/// Run `f` on a worker thread; give up waiting after `secs` (the thread is abandoned, not killed).
+fn with_watchdog<T: Send + 'static>(secs: u64, f: impl FnOnce() -> T + Send + 'static) -> Watched<T> {
+    let (tx, rx) = std::sync::mpsc::channel();
+    let spawned = std::thread::Builder::new().stack_size(64 << 20).spawn(move || {
+        let _ = tx.send(f());
+    });
+    if spawned.is_err() {
+        return Watched::Died;
+    }
+    match rx.recv_timeout(std::time::Duration::from_secs(secs)) {
+        Ok(v) => Watched::Done(v),
+        Err(std::sync::mpsc::RecvTimeoutError::Timeout) => Watched::TimedOut,
+        Err(_) => Watched::Died,
+    }
+}
+
 // ------------------------------------------------------------------------------------------------ driving
 
 fn strip_ansi(s: &str) -> String {
@@ -2509,6 +2636,92 @@ fn real_main() {
         }
     } else {
         ev.discard("in-process cycle cases skipped: the CLI canaries crashed or hung");
+    }
+
+    // ---- cycle shapes (alias / expression / collection links, tails leading into the cycle, declaration orders), each
+    //      on a worker thread with a watchdog: "cycles are always reported rather than looping" - a case that does not
+    //      return is the violation itself
+    {
+        let n_shapes = args.tier.pick(1_500usize, 60_000usize);
+        let sstrat = cyc_strategy();
+        let mut srunner = gen::runner(args.subseed(6060));
+        let strees = gen::batch(&sstrat, &mut srunner, n_shapes);
+        let f = farm.get_or_insert_with(|| Farm::new("c06"));
+        // a few through the CLI first: unbounded recursion would kill this process, not just a thread
+        let mut shapes_safe = cycles_safe;
+        let firsts: Vec<String> = strees.iter().take(args.tier.pick(12, 100)).map(|t| cyc_source(&t.current()).0).collect();
+        let res = f.par_map(&firsts, |s| cli_check(f, s, 60));
+        for (s, (status, timed_out, signal, text)) in firsts.iter().zip(res.into_iter()) {
+            ev.add("cycle_cli_canaries", 1);
+            let doc = json!({"leg": "cycle-cli", "source": s});
+            if timed_out {
+                let (_, again, _, _) = cli_check(f, s, 120);
+                if again {
+                    report(&mut out, &mut ev, "hang:const-cycle", &format!("`incan --check` does not terminate on this const dependency cycle (killed after 60 s, then after 120 s alone)\n{s}"), doc);
+                } else {
+                    out.inconclusive("a cycle canary timed out under load but terminated alone");
+                }
+            } else if signal.is_some() || status.is_none() {
+                shapes_safe = false;
+                report(&mut out, &mut ev, "crash:const-cycle", &format!("`incan --check` died with signal {:?} on a const dependency cycle\n{s}\n{}", signal, util::truncate(&text, 400)), doc);
+            }
+        }
+        let mut abandoned = 0usize;
+        let bound = args.tier.pick(20u64, 20u64);
+        for t in strees.iter() {
+            if !shapes_safe {
+                ev.discard("cycle shapes skipped: a CLI canary crashed");
+                break;
+            }
+            if abandoned >= 3 {
+                ev.discard("cycle shapes skipped after 3 abandoned (spinning) worker threads");
+                continue;
+            }
+            let r = t.current();
+            let (src, members, n_tails, aliases) = cyc_source(&r);
+            ev.case(Some(util::hash_str(&src)));
+            ev.class(&format!("cycle-shape:len{}:tails{}", r.len, n_tails));
+            ev.class(if aliases == r.len + n_tails { "cycle-shape:all-alias" } else if aliases == 0 { "cycle-shape:no-alias" } else { "cycle-shape:mixed-links" });
+            if ev.want_sample() && n_tails > 0 && aliases > 0 && r.len > 1 {
+                ev.sample(json!({"cycle_shape": src, "cycle": members}));
+            }
+            let (s2, m2) = (src.clone(), members.clone());
+            let w = with_watchdog(bound, move || {
+                let mut st = Stats::default();
+                let fails = judge_inproc(&s2, &[], &m2, &mut st);
+                (fails, st)
+            });
+            match w {
+                Watched::Done((fails, st)) => {
+                    add_stats(&mut stats, &st);
+                    for fl in fails {
+                        if fl.key.starts_with("engine:") {
+                            out.inconclusive(&format!("generated cycle source does not parse: {}", util::truncate(&fl.what, 300)));
+                            continue;
+                        }
+                        report(&mut out, &mut ev, &fl.key, &fl.what, json!({"leg": "inproc", "source": src, "expects": [], "cycle": members}));
+                    }
+                }
+                Watched::Died => report(&mut out, &mut ev, "cycle:checker-thread-died", &format!("the type checker's thread ended without a result\n{src}"), json!({"leg": "cycle-cli", "source": src})),
+                Watched::TimedOut => {
+                    abandoned += 1;
+                    ev.add("cycle_watchdog_abandoned_threads", 1);
+                    // candidate: confirm alone through the CLI
+                    let (_, again, _, _) = cli_check(f, &src, 60);
+                    if again {
+                        report(
+                            &mut out,
+                            &mut ev,
+                            "hang:const-cycle",
+                            &format!("type checking does not terminate: no result after {bound} s in-process, and `incan --check` on the same file alone was killed after 60 s. Consts that reference each other in a loop must be reported, not looped on.\n{src}"),
+                            json!({"leg": "cycle-cli", "source": src}),
+                        );
+                    } else {
+                        out.inconclusive("a cycle case exceeded the in-process watchdog but `incan --check` terminated on it alone");
+                    }
+                }
+            }
+        }
     }
     ev.set("inprocess", json!({
         "values_compared": stats.values_compared, "value_unknown_at_compile_time": stats.value_unknown_at_compile_time,
